@@ -15,6 +15,7 @@ HARNESSES = [
     dict(name=H + "kc09::c09_read_long", file="kani/h_c09.rs", ids=r"^C09/read_abs24_l/", fn="read_abs24_l", props=["C09", "C15"]),
     dict(name=H + "kc09::c09_write_word", file="kani/h_c09.rs", ids=r"^C09/write_abs24_w/", fn="write_abs24_w", props=["C09", "C15"]),
     dict(name=H + "kc09::c09_write_long", file="kani/h_c09.rs", ids=r"^C09/write_abs24_l/", fn="write_abs24_l", props=["C09", "C15"]),
+    dict(name=H + "kc09::c09_seam_map_is_the_real_map", file="kani/h_c09.rs", ids=r"^C09/real_Bus::read/", fn="Bus::read (compiled function, no stub)", props=["C09", "C15"]),
     dict(name=H + "kc14::c14_set_handler", file="kani/h_c14.rs", ids=r"^C14/set_handler/", fn="trapa, trapa_emulate_mes2 (id 113) ; Cpu::interrupt", props=["C14", "C15"]),
     dict(name=H + "kc14::c14_unknown_call_is_error", file="kani/h_c14.rs", ids=r"^C14/unknown_id/", fn="trapa, trapa_emulate_mes2 (other ids)", props=["C14", "C15"]),
     dict(name=H + "kc14::c14_write_len0", file="kani/h_c14.rs", ids=r"^C14/write/", fn="trapa, trapa_emulate_mes2 (id 104)", props=["C14"], bounded="C14 write call: argument block at H'FFC200, length 0..=4 (one harness per length), ASCII payload, String::from_utf8 modelled"),
